@@ -235,7 +235,9 @@ pub(crate) fn run(seed: u64, n: u64, out: &mut Out) {
                     let mut v1 = rng.chance(2, 3);
                     let mut what: &'static str = if pending_b.is_empty() { "blocks-proof-unsolicited" } else { "blocks-proof-honest" };
                     if !in_closing && !pending_b.is_empty() && rng.chance(2, 3) {
-                        match rng.below(10) {
+                        // (the forged header at the last number can only be tried when the user's request for it is under way: take the chance)
+                        let pick = if missing.contains(&forged_header.calc_header_hash()) && rng.chance(1, 2) { 8 } else { rng.below(10) };
+                        match pick {
                             0 if !hs.is_empty() => { what = "blocks-proof-foreign-header"; let j = rng.below(hs.len() as u64) as usize; let n = rng.range(1, tip - 1); hs[j] = other.chain.headers[(n.min(other.tip())) as usize].data(); }
                             1 if !hs.is_empty() => { what = "blocks-proof-dropped-header"; let j = rng.below(hs.len() as u64) as usize; hs.remove(j); if v1 && j < uncles.len() { uncles.remove(j); exts.remove(j); } }
                             2 => { what = "blocks-proof-extra-header"; let n = rng.range(1, tip - 1); hs.push(bc.chain.headers[n as usize].data()); uncles.push(packed::Byte32::zero()); exts.push(Pack::pack(&bc.chain.extension(n))); }
